@@ -132,6 +132,11 @@ pub fn sweep(seed: u64, tier: &str) -> Acc {
                     line.push_str(&format!(" movestogo {}", m));
                 }
                 check_line(&line, &mut acc, 0);
+                if let Some(m) = mtg {
+                    // the same with movestogo announced first, and in the middle
+                    check_line(&format!("go movestogo {} wtime {} btime {} winc {} binc {}", m, clock, oc, inc, oi), &mut acc, 0);
+                    check_line(&format!("go binc {} btime {} movestogo {} winc {} wtime {}", oi, oc, m, inc, clock), &mut acc, 0);
+                }
                 let mut line = format!("go btime {} wtime {} binc {} winc {}", clock, oc, inc, oi);
                 if let Some(m) = mtg {
                     line.push_str(&format!(" movestogo {}", m));
@@ -159,6 +164,20 @@ pub fn sweep(seed: u64, tier: &str) -> Acc {
         if rng.chance(1, 2) {
             parts.push("movestogo".into());
             parts.push(rng.range(1, 60).to_string());
+        }
+        // UCI does not fix the order of the parameters: half of the lines have their pairs shuffled
+        if rng.chance(1, 2) {
+            let mut pairs: Vec<(String, String)> = parts[1..].chunks(2).map(|c| (c[0].clone(), c[1].clone())).collect();
+            for i in (1..pairs.len()).rev() {
+                let j = rng.below(i as u64 + 1) as usize;
+                pairs.swap(i, j);
+            }
+            parts.truncate(1);
+            for (k, v) in pairs {
+                parts.push(k);
+                parts.push(v);
+            }
+            acc.count("c09_lines_with_shuffled_parameter_order");
         }
         if rng.chance(1, 8) {
             parts.insert(1, "infinite".into());
